@@ -40,7 +40,7 @@ def pytest_sessionfinish(session, exitstatus):
         out["monitors"]["c03"] = {"evals": c03.ST.get("its_evals", 0) + c03.ST.get("smarts_evals", 0),
                                   "results": c03.ST.get("its_results", 0) + c03.ST.get("smarts_results", 0),
                                   "skipped": c03.ST.get("skipped", {}),
-                                  "failures": [[k, str(w_)[:300], m[:300]] for k, w_, m in c03.FAIL[:5]]}
+                                  "failures": [[k, str(w_)[:300], m[:300]] for f_, k, w_, m in c03.FAIL[:5] if f_ is None]}
     if "c11" in w:
         from checks import reactor_common as RC
         out["monitors"]["c11"] = {"evals": RC.STATS["dedup_calls"], "failures": [str(x)[:500] for x in RC.FAIL[:5]]}
